@@ -26,10 +26,18 @@ META = {
         ('performance_lib', 'BasePerformance._from_quantized_sequence'),
         ('performance_lib', 'NotePerformance._from_quantized_sequence'),
         ('performance_lib', 'velocity_to_bin'),
+        ('performance_lib', '_program_and_is_drum_from_sequence'),
+        ('performance_lib', 'BasePerformance.__init__'),
+        ('performance_lib', 'Performance.__init__'),
+        ('performance_lib', 'MetricPerformance.__init__'),
+        ('performance_lib', 'NotePerformance.__init__'),
         ('pianoroll_lib', 'PianorollSequence._from_quantized_sequence'),
+        ('pianoroll_lib', 'PianorollSequence.__init__'),
+        ('pianoroll_lib', 'PianorollSequence.append'),
         ('drums_lib', 'DrumTrack.from_quantized_sequence'),
         ('chords_lib', 'ChordProgression.from_quantized_sequence'),
         ('chords_lib', 'ChordProgression._add_chord'),
+        ('chords_lib', 'event_list_chords'),
         ('melodies_lib', 'Melody.from_quantized_sequence'),
         ('melodies_lib', 'Melody._add_note'),
         ('melodies_lib', 'Melody._get_last_on_off_events'),
@@ -43,18 +51,35 @@ META = {
         '*max_shift_steps after the '
         'start step (bounds the shift-splitting loop); step values themselves '
         'are unbounded',
-        'list-indexed extractors: steps within [0, S] (S = 6 quick, 9 '
+        'list-indexed extractors: steps within [0, S] (S = 6..7 quick, 9 '
         'thorough), closed by forking',
+        'exactly one time signature per sequence',
+        'event_list_chords: every chord annotation lies inside the sequence '
+        '(step < total_quantized_steps >= 1)',
+        'default pianoroll window 21..108: note pitches within 2 of either end '
+        'of the window',
     ],
     'bounds': {
-        'quick': 'N<=2 notes with symbolic steps; performances additionally N=3 '
-                 'on six concrete step patterns with symbolic velocities, '
-                 'pitches; steps <= 6 for '
-                 'melody/drums/chords/pianoroll; 4 steps per bar',
+        'quick': 'N<=2 notes with symbolic steps (also N=0); performances '
+                 'additionally N=3 '
+                 'on concrete step patterns with symbolic velocities, '
+                 'pitches, instruments (up to 3) and start step; steps <= 7 for '
+                 'melody/drums/chords/pianoroll; meters 4/4, 2/4, 3/4, 6/8 '
+                 '(3/8 as the rejected case) at 1..2 steps per quarter; '
+                 'metric performances at 2, 3, 4 steps per quarter, absolute at '
+                 '50 / 100 steps per second; gap_bars 0..2; K<=3 chords; every '
+                 'extractor also called with its defaults only, on a used '
+                 'object (DrumTrack / Melody / ChordProgression), with the '
+                 'wrong kind of quantization, and the performances / pianoroll '
+                 'built without a sequence',
         'thorough': 'N<=3; steps <= 9; more parameter combinations',
     },
     'outside': ['more notes than the bounds', 'meters other than the listed '
-                'ones'],
+                'ones', 'several / no time signatures',
+                'rendering back with to_sequence (C06)',
+                'the order of note events inside one step of a performance',
+                'midi_file_to_melody / midi_file_to_drum_track (file input)',
+                'object state after a raised error'],
 }
 
 NO_EVENT, NOTE_OFF = -2, -1
@@ -82,6 +107,7 @@ def _qseq(c, N, smax, relative=True, spq=1, sps=100, ts=(4, 4), pitch=(58, 62),
           unbounded=False, instruments=(0, 1), vel=(0, 127), steps=None,
           no_overlap=True):
   """A quantized NoteSequence built directly on the message classes."""
+  # (N may be 0: the empty quantized sequence)
   pb = c.pb
   ns = pb.NoteSequence()
   if relative:
@@ -126,6 +152,71 @@ def _qseq(c, N, smax, relative=True, spq=1, sps=100, ts=(4, 4), pitch=(58, 62),
   return ns, notes, tq
 
 
+def _vbin(v, nbins):
+  """Velocity bin, written from the documentation and independent of the
+  library's helper: equal-width bins over the 127 MIDI velocities 1..127, width
+  ceil(127 / nbins), bins numbered from 1; 0 when velocities are not used."""
+  if not nbins:
+    return 0
+  width = -(-127 // nbins)
+  return (v - 1) // width + 1
+
+
+def _check_prog_drum(c, perf, notes, instrument):
+  """program / drum flag of a performance: those of the selected instrument's
+  notes (all notes of that instrument count, also the ones before
+  start_step)."""
+  N = len(notes)
+  sel = [True if instrument is None else c.eq(n['i'], instrument)
+         for n in notes]
+  all_drum = c.And([c.Implies(s_, n['d']) for s_, n in zip(sel, notes)]
+                   or [True])
+  none_drum = c.And([c.Implies(s_, c.Not(n['d'])) for s_, n in zip(sel, notes)]
+                    or [True])
+  c.check(c.If(all_drum, perf.is_drum is True,
+               c.If(none_drum, perf.is_drum is False, perf.is_drum is None)),
+          'is_drum = the drum flag shared by the selected instrument\'s notes')
+  one_prog = c.And([c.Implies(c.And(sel[a], sel[b]),
+                              c.eq(notes[a]['g'], notes[b]['g']))
+                    for a in range(N) for b in range(a + 1, N)] or [True])
+  want_prog = c.And(c.Not(all_drum), none_drum, one_prog)
+  if perf.program is None:
+    c.check(c.Not(want_prog), 'program lost although the selected '
+            'instrument\'s notes share one program')
+  else:
+    c.check(c.And([want_prog] + [c.Implies(s_, c.eq(perf.program, n['g']))
+                                 for s_, n in zip(sel, notes)]),
+            'program = the program of the selected instrument\'s notes')
+
+
+def _prepopulate(c, obj, kind):
+  """Runs a first extraction on `obj` (a DrumTrack / Melody /
+  ChordProgression) from an unrelated concrete sequence, so that the extraction
+  under test starts from a used object: from_quantized_sequence documents
+  'populate self from the given sequence', i.e. nothing of an earlier
+  extraction may survive."""
+  pb = c.pb
+  pre = pb.NoteSequence()
+  pre.quantization_info.steps_per_quarter = 3
+  pre.time_signatures.add(numerator=4, denominator=4)
+  pre.tempos.add(qpm=120)
+  for ins in (0, 1, 2):
+    pre.notes.add(pitch=40 + ins, velocity=90, quantized_start_step=14,
+                  quantized_end_step=17, start_time=14 / 6.0,
+                  end_time=17 / 6.0, instrument=ins, is_drum=(kind == 'drums'))
+  pre.text_annotations.add(
+      text='F', quantized_step=0,
+      annotation_type=pb.NoteSequence.TextAnnotation.CHORD_SYMBOL)
+  pre.total_quantized_steps = 17
+  if kind == 'drums':
+    obj.from_quantized_sequence(pre)
+  elif kind == 'melody':
+    obj.from_quantized_sequence(pre, 0, c.params.get('instrument', 0))
+  else:
+    obj.from_quantized_sequence(pre, 3, 12)
+  assert len(obj) > 0 and obj.start_step > 0
+
+
 # ---------------------------------------------------------------------------
 # performances
 
@@ -136,7 +227,9 @@ def _check_perf_events(c, pl, events, notes, start, ms, nbins, instrument):
   ons, offs = [], []
   cur_bin = 0
   shifts_ok = []
+  at = []  # (event is a note-on/off, step at which the event happens)
   for e in events:
+    at.append((e.event_type in (PE.NOTE_ON, PE.NOTE_OFF), step))
     if e.event_type == PE.TIME_SHIFT:
       shifts_ok.append(c.And(e.event_value >= 1, e.event_value <= ms))
       step = step + e.event_value
@@ -153,12 +246,7 @@ def _check_perf_events(c, pl, events, notes, start, ms, nbins, instrument):
          for n in notes]
 
   def vbin(v):
-    # equal-width bins over the 127 MIDI velocities 1..127, independent of the
-    # library's own helper: width ceil(127 / nbins), bins numbered from 1
-    if not nbins:
-      return 0
-    width = -(-127 // nbins)
-    return (v - 1) // width + 1
+    return _vbin(v, nbins)
 
   exp_on = [(s, (n['p'], n['qs'], vbin(n['v']))) for s, n in zip(sel, notes)]
   exp_off = [(s, (n['p'], n['qe'])) for s, n in zip(sel, notes)]
@@ -168,6 +256,7 @@ def _check_perf_events(c, pl, events, notes, start, ms, nbins, instrument):
           'note-offs = selected notes (pitch, end step)')
   last = c.Max([start] + [c.If(s, n['qe'], start) for s, n in zip(sel, notes)])
   c.check(c.eq(step, last), 'time shifts sum to the elapsed steps')
+  return at, last
 
 
 def h_performance(c):
@@ -177,47 +266,70 @@ def h_performance(c):
   kind = c.params['kind']
   relative = kind == 'metric'
   pattern = c.params.get('steps')
-  ns, notes, tq = _qseq(c, N, None, relative=relative, spq=4, sps=100,
+  spq = c.params.get('spq', 4)
+  sps = c.params.get('sps', 100)
+  ins_hi = c.params.get('ins_hi', 1 if pattern is None else 0)
+  ns, notes, tq = _qseq(c, N, None, relative=relative, spq=spq, sps=sps,
                         unbounded=pattern is None, vel=(1, 127),
-                        instruments=(0, 1) if pattern is None else (0, 0),
+                        instruments=(0, ins_hi),
                         steps=pattern,
                         pitch=tuple(c.params.get('pitch', (58, 62))))
-  start = c.int('start', 0, None) if pattern is None else 0
+  if pattern is None:
+    start = c.int('start', 0, None)
+  elif c.params.get('start_hi'):
+    start = c.int('start', 0, c.params['start_hi'])
+  else:
+    start = 0
   instrument = c.params.get('instrument')
-  if relative:
-    c.assume(tq <= start + c.params.get('loops', 3) * c.params['msq'] * 4)
+  call = c.params.get('call', 'explicit')
+  # 'given': program / is_drum passed next to a sequence are documented as
+  # ignored (the values below never describe the notes: programs are 0..5)
+  extra = dict(program=7, is_drum=c.bool('given_drum')) \
+      if call == 'given' else {}
+  before = c.snapshot(ns)
+  if call == 'defaults':
+    # only the sequence: start_step=0, num_velocity_bins=0, all instruments,
+    # max_shift_steps=100 (absolute) / max_shift_quarters=4 (metric)
+    assert nbins == 0 and instrument is None
+    c.assume(c.eq(start, 0))
+    ms = 4 * spq if relative else 100
+    c.assume(tq <= start + c.params.get('loops', 3) * ms)
+    perf = pl.MetricPerformance(ns) if relative else pl.Performance(ns)
+  elif relative:
+    ms = c.params['msq'] * spq
+    c.assume(tq <= start + c.params.get('loops', 3) * ms)
     perf = pl.MetricPerformance(ns, start_step=start, num_velocity_bins=nbins,
                                 max_shift_quarters=c.params['msq'],
-                                instrument=instrument)
-    ms = c.params['msq'] * 4
+                                instrument=instrument, **extra)
   else:
     ms = c.int('ms', 1, 1000)
     # the shift-splitting loop runs (gap // max_shift_steps) times: bound it
     c.assume(tq <= start + c.params.get('loops', 3) * ms)
     perf = pl.Performance(ns, start_step=start, num_velocity_bins=nbins,
-                          max_shift_steps=ms, instrument=instrument)
-  _check_perf_events(c, pl, list(perf), notes, start, ms, nbins, instrument)
+                          max_shift_steps=ms, instrument=instrument, **extra)
+  at, last = _check_perf_events(c, pl, list(perf), notes, start, ms, nbins,
+                                instrument)
   c.check(c.eq(perf.start_step, start), 'start step kept')
   # program / drum flag: those of the selected instrument's notes (all notes
   # of that instrument count, also the ones before start_step)
-  sel = [True if instrument is None else c.eq(n['i'], instrument)
-         for n in notes]
-  all_drum = c.And([c.Implies(s_, n['d']) for s_, n in zip(sel, notes)])
-  none_drum = c.And([c.Implies(s_, c.Not(n['d'])) for s_, n in zip(sel, notes)])
-  c.check(c.If(all_drum, perf.is_drum is True,
-               c.If(none_drum, perf.is_drum is False, perf.is_drum is None)),
-          'is_drum = the drum flag shared by the selected instrument\'s notes')
-  one_prog = c.And([c.Implies(c.And(sel[a], sel[b]),
-                              c.eq(notes[a]['g'], notes[b]['g']))
-                    for a in range(N) for b in range(a + 1, N)] or [True])
-  want_prog = c.And(c.Not(all_drum), none_drum, one_prog)
-  if perf.program is None:
-    c.check(c.Not(want_prog), 'program lost although the selected '
-            'instrument\'s notes share one program')
+  _check_prog_drum(c, perf, notes, instrument)
+  # attributes of the result
+  c.check(c.eq(perf.max_shift_steps, ms),
+          'max_shift_steps attribute = the limit in steps')
+  if relative:
+    c.check(c.eq(perf.steps_per_quarter, spq),
+            'resolution attribute = the sequence\'s')
   else:
-    c.check(c.And([want_prog] + [c.Implies(s_, c.eq(perf.program, n['g']))
-                                 for s_, n in zip(sel, notes)]),
-            'program = the program of the selected instrument\'s notes')
+    c.check(c.eq(perf.steps_per_second, sps),
+            'resolution attribute = the sequence\'s')
+  c.check(c.And(c.eq(perf.num_steps, last - start), c.eq(perf.end_step, last)),
+          'num_steps / end_step = the elapsed steps')
+  st = perf.steps
+  c.check(len(st) == len(at) and
+          bool(c.And([c.eq(x, w) for x, (is_note, w) in zip(st, at) if is_note]
+                     or [True])),
+          'steps lists the step of every note-on / note-off event')
+  c.check(c.msg_eq(ns, before), 'input sequence not modified')
   if N >= 2:
     c.cover('abutting notes of one pitch',
             c.And(c.eq(notes[0]['p'], notes[1]['p']),
@@ -231,20 +343,36 @@ def h_noteperf(c):
   PE = pl.PerformanceEvent
   N = c.params['N']
   nbins = c.params['bins']
-  ns, notes, tq = _qseq(c, N, None, relative=False, sps=100, unbounded=True,
-                        vel=(1, 127), instruments=(0, 0))
-  ms = c.int('ms', 1, 1000)
-  md = c.int('md', 1, 1000)
-  res, err = c.raises(pl.NotePerformance, ns, nbins, 0, 0, ms, md)
+  sps = c.params.get('sps', 100)
+  ns, notes, tq = _qseq(c, N, None, relative=False, sps=sps, unbounded=True,
+                        vel=(1, 127),
+                        instruments=(0, c.params.get('ins_hi', 0)))
+  before = c.snapshot(ns)
+  if c.params.get('call') == 'defaults':
+    # only the two required arguments: instrument=0, start_step=0, both
+    # limits 1000
+    instrument, start, ms, md = 0, 0, 1000, 1000
+    res, err = c.raises(pl.NotePerformance, ns, nbins)
+  else:
+    ms = c.int('ms', 1, 1000)
+    md = c.int('md', 1, 1000)
+    instrument = c.params.get('instrument', 0)
+    start = c.int('start', 0, None) if c.params.get('sym_start') else 0
+    res, err = c.raises(pl.NotePerformance, ns, nbins, instrument, start, ms,
+                        md)
+  # selected: notes of the instrument (None = all) starting at / after start
+  sel = [c.And(n['qs'] >= start,
+               True if instrument is None else c.eq(n['i'], instrument))
+         for n in notes]
   # expected: notes in (start, pitch) order; errors for too long shifts/durs
   order = sorted(range(N), key=lambda i: (notes[i]['qs'], notes[i]['p']))
-  cur = 0
+  cur = start
   too_shift = []
   too_dur = []
   for i in order:
-    too_shift.append(notes[i]['qs'] - cur > ms)
-    too_dur.append(notes[i]['qe'] - notes[i]['qs'] > md)
-    cur = notes[i]['qs']
+    too_shift.append(c.And(sel[i], notes[i]['qs'] - cur > ms))
+    too_dur.append(c.And(sel[i], notes[i]['qe'] - notes[i]['qs'] > md))
+    cur = c.If(sel[i], notes[i]['qs'], cur)
   bad = c.Or(too_shift + too_dur)
   if err is not None:
     c.check(isinstance(err, (pl.TooManyTimeShiftStepsError,
@@ -255,21 +383,39 @@ def h_noteperf(c):
     return
   c.check(c.Not(bad), 'too long shift/duration accepted')
   evs = list(res)
-  c.check(len(evs) == N, 'one event tuple per note')
-  step = 0
+  c.check(c.eq(len(evs), c.Count(sel)), 'one event tuple per note')
+  step = start
   got = []
   for t in evs:
+    c.check(len(t) == 4 and
+            [x.event_type for x in t] == [PE.TIME_SHIFT, PE.NOTE_ON,
+                                          PE.VELOCITY, PE.DURATION],
+            'tuple = (TIME_SHIFT, NOTE_ON, VELOCITY, DURATION)')
     step = step + t[0].event_value
     got.append((t[1].event_value, step, step + t[3].event_value,
                 t[2].event_value))
     c.check(c.And(t[0].event_value >= 0, t[0].event_value <= ms,
                   t[3].event_value >= 1, t[3].event_value <= md),
             'shift and duration within their limits')
-  exp = [(True, (n['p'], n['qs'], n['qe'], pl.velocity_to_bin(n['v'], nbins)))
-         for n in notes]
+  exp = [(s_, (n['p'], n['qs'], n['qe'], _vbin(n['v'], nbins)))
+         for s_, n in zip(sel, notes)]
   c.check(K.multiset_eq(c, got, exp),
           'tuples = notes (pitch, start, end, velocity bin)')
+  # attributes of the result
+  c.check(c.And(c.eq(res.start_step, start),
+                c.eq(res.steps_per_second, sps),
+                c.eq(res.max_shift_steps, ms)),
+          'start_step / steps_per_second / max_shift_steps attributes')
+  st = res.steps
+  c.check(len(st) == len(got) and
+          bool(c.And([c.eq(x, g[1]) for x, g in zip(st, got)] or [True])),
+          'steps lists the start step of every tuple')
+  _check_prog_drum(c, res, notes, instrument)
+  c.check(c.msg_eq(ns, before), 'input sequence not modified')
   c.cover('accepted')
+  if N >= 2 and c.params.get('ins_hi'):
+    c.cover('a note of another instrument skipped',
+            c.And(c.Not(sel[0]), sel[1], notes[0]['qs'] >= start))
 
 
 # ---------------------------------------------------------------------------
@@ -280,20 +426,39 @@ def h_pianoroll(c):
   pr = c.mod('pianoroll_lib')
   N, S = c.params['N'], c.params['S']
   split = c.params['split']
-  lo, hi = 59, 61
-  ns, notes, tq = _qseq(c, N, S, relative=True, spq=1, pitch=(58, 62))
+  spq = c.params.get('spq', 1)
+  defaults = c.params.get('call') == 'defaults'
+  # default window: the piano range 21..108 of the documentation
+  lo, hi = (21, 108) if defaults else tuple(c.params.get('window', (59, 61)))
+  ns, notes, tq = _qseq(c, N, S, relative=True, spq=spq,
+                        pitch=(lo - 1, hi + 1))
+  wide = hi - lo > 4
+  if wide:
+    # keep the notes near the two ends of the window (the per-pitch loop below
+    # then only needs the border pitches)
+    for n in notes:
+      c.assume(c.Or(n['p'] <= lo + 1, n['p'] >= hi - 1))
   start = c.params['start']
   c.assume(tq >= start)
-  seq = pr.PianorollSequence(quantized_sequence=ns, start_step=start,
-                             min_pitch=lo, max_pitch=hi, split_repeats=split)
+  before = c.snapshot(ns)
+  if defaults:
+    assert start == 0 and split
+    seq = pr.PianorollSequence(quantized_sequence=ns)
+  else:
+    seq = pr.PianorollSequence(quantized_sequence=ns, start_step=start,
+                               min_pitch=lo, max_pitch=hi, split_repeats=split)
   T = c.concretize(tq) - start
   evs = list(seq)
   c.check(len(evs) == T, 'one event per step up to total_quantized_steps')
-  c.check(seq.start_step == start and seq.steps_per_quarter == 1,
+  c.check(seq.start_step == start and seq.steps_per_quarter == spq,
           'start step and resolution')
+  c.check(seq.num_steps == T and seq.end_step == start + T and
+          list(seq.steps) == list(range(start, start + T)),
+          'num_steps / end_step / steps cover start_step..total steps')
+  probe = ([lo, lo + 1, hi - 1, hi] if wide else list(range(lo, hi + 1)))
   for t in range(T):
     stp = start + t
-    for p in range(lo, hi + 1):
+    for p in probe:
       used = [c.And(n['qs'] >= start, c.eq(n['p'], p)) for n in notes]
       sounding = c.Or([c.And(u, n['qs'] <= stp, stp < n['qe'])
                        for u, n in zip(used, notes)])
@@ -307,12 +472,18 @@ def h_pianoroll(c):
       c.check(c.And(c.Implies(on, present), c.Implies(c.Not(on), not present)),
               'step holds exactly the sounding in-range pitches')
     c.check(list(evs[t]) == sorted(set(evs[t])), 'event is a sorted tuple')
+    if wide:
+      c.check(all(x in [p - lo for p in probe] for x in evs[t]),
+              'no pitch offset that no note has')
+  c.check(c.msg_eq(ns, before), 'input sequence not modified')
   if N >= 2:
     c.cover('abutting notes of one pitch',
             c.And(c.eq(notes[0]['p'], notes[1]['p']),
-                  c.eq(notes[1]['qe'], notes[0]['qs']), c.eq(notes[0]['p'], 60)))
-  c.cover('note starts exactly on start_step',
-          c.And(c.eq(notes[0]['qs'], start), c.eq(notes[0]['p'], 60)))
+                  c.eq(notes[1]['qe'], notes[0]['qs']),
+                  c.eq(notes[0]['p'], lo + 1)))
+  if N >= 1:
+    c.cover('note starts exactly on start_step',
+            c.And(c.eq(notes[0]['qs'], start), c.eq(notes[0]['p'], lo + 1)))
 
 
 # ---------------------------------------------------------------------------
@@ -332,14 +503,24 @@ def h_drums(c):
   pad = c.params['pad']
   ign = c.params['ignore_is_drum']
   track = dl.DrumTrack()
-  res, err = c.raises(track.from_quantized_sequence, ns, search, gap_bars, pad,
-                      ign)
+  if c.params.get('reuse'):
+    _prepopulate(c, track, 'drums')
+  before = c.snapshot(ns)
+  if c.params.get('call') == 'defaults':
+    # only the sequence: search_start_step=0, gap_bars=1, pad_end=False,
+    # ignore_is_drum=False
+    assert (search, gap_bars, pad, ign) == (0, 1, False, False)
+    res, err = c.raises(track.from_quantized_sequence, ns)
+  else:
+    res, err = c.raises(track.from_quantized_sequence, ns, search, gap_bars,
+                        pad, ign)
   spb_f = Fraction(spq * 4 * ts[0], ts[1])
   if spb_f.denominator != 1:
     c.check(err is not None and isinstance(err, el.NonIntegerStepsPerBarError),
             'fractional bar rejected with NonIntegerStepsPerBarError')
     return
   c.check(err is None, 'no error for an integer bar length')
+  c.check(c.msg_eq(ns, before), 'input sequence not modified')
   spb = int(spb_f)
   # declarative expectation on concretised steps
   struck = {}
@@ -354,6 +535,8 @@ def h_drums(c):
     struck.setdefault(qs, []).append(n['p'])
   if not struck:
     c.check(len(track) == 0, 'no drums: empty track')
+    c.check(track.end_step - track.start_step == 0,
+            'empty track spans no steps')
     return
   steps = sorted(struck)
   t0 = steps[0] - (steps[0] - search) % spb
@@ -374,6 +557,7 @@ def h_drums(c):
   for t in range(length):
     want = struck.get(t0 + t, []) if (t0 + t) in kept else []
     got = evs[t]
+    c.check(isinstance(got, frozenset), 'drum event is a frozenset')
     c.check(len(got) <= len(want) and
             bool(c.And([c.Or([c.eq(g, w) for w in want] or [False])
                         for g in got] or [True])) and
@@ -410,6 +594,9 @@ def h_chords(c):
     chords.append((q, ty, text))
   start, end = c.params['start'], c.params['end']
   prog = cl.ChordProgression()
+  if c.params.get('reuse'):
+    _prepopulate(c, prog, 'chords')
+  before = c.snapshot(ns)
   res, err = c.raises(prog.from_quantized_sequence, ns, start, end)
   spb_f = Fraction(spq * 4 * ts[0], ts[1])
   if spb_f.denominator != 1:
@@ -430,6 +617,9 @@ def h_chords(c):
   evs = list(prog)
   c.check(len(evs) == end - start and prog.start_step == start and
           prog.end_step == end, 'one event per step of [start, end)')
+  c.check(prog.steps_per_bar == int(spb_f) and prog.steps_per_quarter == spq,
+          'resolution')
+  c.check(c.msg_eq(ns, before), 'input sequence not modified')
   for t in range(start, end):
     best = None
     for (q, txt) in real:
@@ -452,15 +642,27 @@ def h_melody(c):
   spq = c.params.get('spq', 1)
   ns, notes, tq = _qseq(c, N, S, relative=True, spq=spq, ts=ts,
                         pitch=tuple(c.params.get('pitch', (60, 62))),
-                        instruments=(0, 1), steps=c.params.get('steps'))
+                        instruments=(0, c.params.get('ins_hi', 1)),
+                        steps=c.params.get('steps'))
   search = c.params['search']
   gap_bars = c.params['gap']
   pad = c.params['pad']
   ign = c.params['ignore_poly']
   fdr = c.params['filter_drums']
+  instrument = c.params.get('instrument', 0)
   mel = ml.Melody()
-  res, err = c.raises(mel.from_quantized_sequence, ns, search, 0, gap_bars, ign,
-                      pad, fdr)
+  if c.params.get('reuse'):
+    _prepopulate(c, mel, 'melody')
+  before = c.snapshot(ns)
+  if c.params.get('call') == 'defaults':
+    # only the sequence: search_start_step=0, instrument=0, gap_bars=1,
+    # ignore_polyphonic_notes=False, pad_end=False, filter_drums=True
+    assert (search, instrument, gap_bars, ign, pad, fdr) == (
+        0, 0, 1, False, False, True)
+    res, err = c.raises(mel.from_quantized_sequence, ns)
+  else:
+    res, err = c.raises(mel.from_quantized_sequence, ns, search, instrument,
+                        gap_bars, ign, pad, fdr)
   spb_f = Fraction(spq * 4 * ts[0], ts[1])
   if spb_f.denominator != 1:
     c.check(err is not None and isinstance(err, el.NonIntegerStepsPerBarError),
@@ -469,7 +671,7 @@ def h_melody(c):
   spb = int(spb_f)
   cand = []
   for n in notes:
-    if not bool(c.eq(n['i'], 0)):
+    if not bool(c.eq(n['i'], instrument)):
       continue
     qs, qe = c.concretize(n['qs']), c.concretize(n['qe'])
     if qs < search:
@@ -477,6 +679,7 @@ def h_melody(c):
     cand.append((qs, qe, n))
   if not cand:
     c.check(err is None and len(mel) == 0, 'no notes: empty melody')
+    c.check(mel.end_step - mel.start_step == 0, 'empty melody spans no steps')
     return
   first = min(q for q, _, _ in cand)
   t0 = first - (first - search) % spb
@@ -508,9 +711,13 @@ def h_melody(c):
     return
   c.check(err is None, 'no error for monophonic input (or ignored polyphony)')
   evs = list(mel)
+  c.check(c.msg_eq(ns, before), 'input sequence not modified')
   if not kept:
     c.check(len(evs) == 0, 'nothing kept: empty melody')
+    c.check(mel.end_step - mel.start_step == 0, 'empty melody spans no steps')
     return
+  c.check(mel.steps_per_bar == spb and mel.steps_per_quarter == spq,
+          'resolution')
   length = kept[-1][1] - t0
   padded = length + (-length % spb if pad else 0)
   c.check(len(evs) == padded, 'melody ends with its last note (padded to the '
@@ -538,6 +745,199 @@ def h_melody(c):
   c.cover('gap ends the melody', len(kept) < len(groups))
 
 
+# ---------------------------------------------------------------------------
+# chords for event lists (public wrapper around ChordProgression)
+
+
+def h_chord_lists(c):
+  """chords_lib.event_list_chords: for every event of every given event
+  sequence the chord in force at the step of that event."""
+  cl = c.mod('chords_lib')
+  ml = c.mod('melodies_lib')
+  pb = c.pb
+  TA = pb.NoteSequence.TextAnnotation
+  Kc, S = c.params['K'], c.params['S']
+  ns = pb.NoteSequence()
+  ns.quantization_info.steps_per_quarter = 1
+  ns.time_signatures.add(numerator=4, denominator=4)
+  tq = c.int('tq', 1, S)
+  ns.total_quantized_steps = tq
+  chords = []
+  for i in range(Kc):
+    # every annotation lies inside the sequence
+    q = c.int('c%d_q' % i, 0, S - 1)
+    c.assume(q < tq)
+    ty = c.int('c%d_ty' % i, 1, 2)  # CHORD_SYMBOL or BEAT
+    ns.text_annotations.add(text=_FIGS[i], quantized_step=q,
+                            annotation_type=ty)
+    chords.append((q, ty, _FIGS[i]))
+  st, L = c.params['start'], c.params['len']
+  # two event sequences: steps st..st+L-1 (may run past the end of the
+  # sequence: the last chord stays in force) and an empty one
+  lists = [ml.Melody([60] + [NO_EVENT] * (L - 1), start_step=st), ml.Melody()]
+  before = c.snapshot(ns)
+  res, err = c.raises(cl.event_list_chords, ns, lists)
+  real = [(c.concretize(q), t) for (q, ty, t) in chords
+          if bool(c.eq(ty, TA.CHORD_SYMBOL))]
+  coincident = any(q1 == q2 for i, (q1, t1) in enumerate(real)
+                   for (q2, t2) in real[i + 1:])
+  if coincident:
+    c.check(err is not None and isinstance(err, cl.CoincidentChordsError),
+            'two different chords on one step raise CoincidentChordsError')
+    c.cover('coincident chords rejected')
+    return
+  c.check(err is None, 'no error without coincident chords')
+  c.check(len(res) == 2 and len(res[0]) == L and len(res[1]) == 0,
+          'one chord list per event sequence, one chord per event')
+  for k in range(L):
+    t = st + k
+    best = None
+    for (q, txt) in real:
+      if q <= t and (best is None or q >= best[0]):
+        best = (q, txt)
+    want = best[1] if best else 'N.C.'
+    c.check(res[0][k] == want, 'chord in force at the step of every event')
+  c.check(c.msg_eq(ns, before), 'input sequence not modified')
+  c.cover('events past the end of the sequence', c.concretize(tq) < st + L)
+
+
+# ---------------------------------------------------------------------------
+# construction without / with the wrong kind of sequence
+
+
+def _tiny(c, relative):
+  pb = c.pb
+  ns = pb.NoteSequence()
+  if relative:
+    ns.quantization_info.steps_per_quarter = 4
+  else:
+    ns.quantization_info.steps_per_second = 100
+  ns.time_signatures.add(numerator=4, denominator=4)
+  ns.tempos.add(qpm=120)
+  ns.notes.add(pitch=60, velocity=80, quantized_start_step=0,
+               quantized_end_step=2, start_time=0.0,
+               end_time=0.25 if relative else 0.02)
+  ns.total_quantized_steps = 2
+  return ns
+
+
+def h_ctor(c):
+  pl = c.mod('performance_lib')
+  pr = c.mod('pianoroll_lib')
+  dl = c.mod('drums_lib')
+  cl = c.mod('chords_lib')
+  ml = c.mod('melodies_lib')
+  sl = c.mod('sequences_lib')
+  case = c.params['case']
+  rel, ab = _tiny(c, True), _tiny(c, False)
+  if case == 'wrong_kind':
+    # every extractor is documented for one kind of quantization; the other
+    # kind is refused with QuantizationStatusError
+    calls = [
+        ('Performance', lambda: pl.Performance(rel)),
+        ('NotePerformance', lambda: pl.NotePerformance(rel, 8)),
+        ('MetricPerformance', lambda: pl.MetricPerformance(ab)),
+        ('PianorollSequence',
+         lambda: pr.PianorollSequence(quantized_sequence=ab)),
+        ('DrumTrack', lambda: dl.DrumTrack().from_quantized_sequence(ab)),
+        ('Melody', lambda: ml.Melody().from_quantized_sequence(ab)),
+        ('ChordProgression',
+         lambda: cl.ChordProgression().from_quantized_sequence(ab, 0, 2)),
+        ('event_list_chords', lambda: cl.event_list_chords(ab, [])),
+    ]
+    for name, f in calls:
+      res, err = c.raises(f)
+      c.check(err is not None and
+              isinstance(err, sl.QuantizationStatusError),
+              'wrong kind of quantization refused with '
+              'QuantizationStatusError')
+  elif case == 'bins':
+    # more velocity bins than MIDI velocities: ValueError
+    nb = c.choice('nb', [127, 128, 200])
+    for f in (lambda: pl.Performance(ab, num_velocity_bins=nb),
+              lambda: pl.MetricPerformance(rel, num_velocity_bins=nb),
+              lambda: pl.NotePerformance(ab, nb),
+              lambda: pl.Performance(steps_per_second=100,
+                                     num_velocity_bins=nb)):
+      res, err = c.raises(f)
+      if nb > 127:
+        c.check(err is not None and isinstance(err, ValueError),
+                'more than 127 velocity bins raise ValueError')
+      else:
+        c.check(err is None, '127 velocity bins accepted')
+  elif case == 'one_of':
+    # exactly one of the sequence and the resolution
+    for f in (lambda: pl.Performance(),
+              lambda: pl.Performance(ab, steps_per_second=100),
+              lambda: pl.Performance(ab, 100),
+              lambda: pl.MetricPerformance(),
+              lambda: pl.MetricPerformance(rel, steps_per_quarter=4),
+              lambda: pl.MetricPerformance(rel, 4)):
+      res, err = c.raises(f)
+      c.check(err is not None and isinstance(err, ValueError),
+              'both / neither of sequence and resolution raise ValueError')
+  elif case == 'empty':
+    # no sequence: an empty performance that keeps what it was given
+    r = c.int('res', 1, 1000)
+    st = c.int('st', 0, 50)
+    m = c.int('m', 1, 200)
+    g = c.int('g', 0, 127)
+    d = c.bool('d')
+    nb = c.choice('nb', [0, 16])
+    p1 = pl.Performance(steps_per_second=r, start_step=st,
+                        num_velocity_bins=nb, max_shift_steps=m, program=g,
+                        is_drum=d)
+    c.check(len(list(p1)) == 0 and bool(c.And(
+        c.eq(p1.steps_per_second, r), c.eq(p1.start_step, st),
+        c.eq(p1.max_shift_steps, m), c.eq(p1.program, g),
+        c.eq(p1.is_drum, d), c.eq(p1.num_steps, 0), c.eq(p1.end_step, st))),
+            'empty Performance keeps resolution, start, limit, program, drum '
+            'flag')
+    p2 = pl.MetricPerformance(steps_per_quarter=r, start_step=st,
+                              num_velocity_bins=nb, max_shift_quarters=m,
+                              program=g, is_drum=d)
+    c.check(len(list(p2)) == 0 and bool(c.And(
+        c.eq(p2.steps_per_quarter, r), c.eq(p2.start_step, st),
+        c.eq(p2.max_shift_steps, r * m), c.eq(p2.program, g),
+        c.eq(p2.is_drum, d), c.eq(p2.num_steps, 0))),
+            'empty MetricPerformance keeps resolution, start, limit (in '
+            'steps), program, drum flag')
+    p3 = pl.Performance(steps_per_second=r)
+    c.check(p3.start_step == 0 and p3.max_shift_steps == 100 and
+            p3.program is None and p3.is_drum is None,
+            'documented defaults of an empty Performance')
+    p4 = pl.MetricPerformance(steps_per_quarter=r)
+    c.check(p4.start_step == 0 and bool(c.eq(p4.max_shift_steps, 4 * r)) and
+            p4.program is None and p4.is_drum is None,
+            'documented defaults of an empty MetricPerformance')
+  elif case == 'roll_events':
+    # PianorollSequence from an event list; shift_range=True: the events are in
+    # MIDI pitches and are shifted / filtered to the window
+    lo = c.int('lo', 0, 64)
+    hi = c.int('hi', 64, 127)
+    a = c.int('a', 0, 127)
+    b = c.int('b', 0, 127)
+    st = c.int('st', 0, 9)
+    seq = pr.PianorollSequence(events_list=[(a, b), ()], steps_per_quarter=2,
+                               start_step=st, min_pitch=lo, max_pitch=hi,
+                               shift_range=True)
+    evs = list(seq)
+    c.check(len(evs) == 2 and len(evs[1]) == 0 and seq.num_steps == 2 and
+            bool(c.And(c.eq(seq.start_step, st), c.eq(seq.end_step, st + 2)))
+            and seq.steps_per_quarter == 2,
+            'one event per given event; start step and resolution kept')
+    want = [(c.And(lo <= x, x <= hi), (x - lo,)) for x in (a, b)]
+    c.check(K.multiset_eq(c, [(x,) for x in evs[0]], want),
+            'shift_range: in-window pitches as offsets from min_pitch')
+    raw = pr.PianorollSequence(events_list=[(a, b)], steps_per_quarter=2,
+                               min_pitch=lo, max_pitch=hi)
+    e0 = list(raw)[0]
+    c.check(len(e0) == 2 and bool(c.And(c.eq(e0[0], a), c.eq(e0[1], b))),
+            'without shift_range the events are taken as they are')
+  else:
+    raise AssertionError(case)
+
+
 HARNESSES = {
     'h_performance': h_performance,
     'h_noteperf': h_noteperf,
@@ -545,6 +945,8 @@ HARNESSES = {
     'h_drums': h_drums,
     'h_chords': h_chords,
     'h_melody': h_melody,
+    'h_chord_lists': h_chord_lists,
+    'h_ctor': h_ctor,
 }
 
 
@@ -631,6 +1033,89 @@ def jobs(tier):
         steps=pat, budget=600)
   add('h_melody', N=3, S=8, search=0, gap=1, pad=True, ignore_poly=False,
       filter_drums=False, steps=_PATTERNS3_SHORT[0], budget=600)
+  # ---- rarely used arguments, defaults by omission, other resolutions /
+  # meters, used objects, the empty sequence
+  # metric resolution other than the default 4 steps per quarter, limit in
+  # quarters other than the default
+  add('h_performance', kind='metric', N=1, bins=0, msq=2, spq=3)
+  # only the sequence (all defaults)
+  add('h_performance', kind='absolute', N=1, bins=0, msq=4, call='defaults')
+  add('h_performance', kind='metric', N=1, bins=0, msq=4, spq=3,
+      call='defaults')
+  # program / is_drum arguments are ignored next to a sequence; absolute
+  # resolution other than 100
+  add('h_performance', kind='absolute', N=1, bins=4, msq=4, sps=50,
+      call='given')
+  add('h_performance', kind='metric', N=1, bins=0, msq=1, spq=2, call='given',
+      instrument=0)
+  # three instruments, filter on the middle one, start step inside the pattern
+  add('h_performance', kind='absolute', N=3, bins=8, msq=4, steps=_PATTERNS3[0],
+      ins_hi=2, instrument=1, start_hi=2, budget=600)
+  add('h_performance', kind='metric', N=3, bins=0, msq=1, steps=_PATTERNS3[4],
+      ins_hi=2, start_hi=2, spq=2, budget=600)
+  add('h_performance', kind='absolute', N=0, bins=0, msq=4)
+  add('h_performance', kind='metric', N=0, bins=8, msq=4, instrument=1)
+  # NotePerformance: instrument filter (also None = all), start step,
+  # defaults, program / drum flag
+  add('h_noteperf', N=2, bins=16, ins_hi=1, instrument=1, sym_start=True,
+      budget=600)
+  add('h_noteperf', N=2, bins=8, ins_hi=1, instrument=None, sym_start=True,
+      budget=600)
+  add('h_noteperf', N=2, bins=127, ins_hi=1, call='defaults', sps=50)
+  add('h_noteperf', N=0, bins=4, sym_start=True)
+  # pianoroll: the default window 21..108 (by omission and explicitly),
+  # another resolution, the empty sequence
+  add('h_pianoroll', N=2, S=4, split=True, start=0, call='defaults',
+      budget=600)
+  add('h_pianoroll', N=1, S=4, split=False, start=2, window=[21, 108])
+  add('h_pianoroll', N=1, S=4, split=True, start=0, spq=2, window=[0, 2])
+  add('h_pianoroll', N=1, S=4, split=True, start=1, window=[125, 127])
+  add('h_pianoroll', N=0, S=4, split=True, start=2)
+  # drums
+  add('h_drums', N=2, S=6, search=0, gap=1, pad=False, ignore_is_drum=False,
+      call='defaults')
+  add('h_drums', N=2, S=6, search=0, gap=1, pad=False, ignore_is_drum=False,
+      reuse=True)
+  add('h_drums', N=2, S=7, search=3, gap=1, pad=True, ignore_is_drum=False,
+      ts=[6, 8])
+  add('h_drums', N=2, S=7, search=4, gap=1, pad=True, ignore_is_drum=True,
+      ts=[2, 4], spq=2)
+  add('h_drums', N=1, S=7, search=0, gap=1, pad=True, ignore_is_drum=False,
+      ts=[3, 4], spq=2)
+  add('h_drums', N=2, S=6, search=0, gap=0, pad=False, ignore_is_drum=True)
+  add('h_drums', N=0, S=4, search=0, gap=1, pad=True, ignore_is_drum=True,
+      reuse=True)
+  # chords
+  add('h_chords', K=2, S=5, start=1, end=4, reuse=True)
+  add('h_chords', K=2, S=5, start=0, end=5, ts=[6, 8], spq=2)
+  add('h_chords', K=3, S=4, start=1, end=4)
+  add('h_chords', K=3, S=4, start=0, end=4, same_text=True)
+  add('h_chords', K=0, S=3, start=2, end=5, reuse=True)
+  add('h_chord_lists', K=2, S=4, start=1, len=5)
+  add('h_chord_lists', K=3, S=3, start=0, len=3)
+  # melody: another instrument of three, used object, gap_bars 2 and 0,
+  # 6/8 and a finer resolution, defaults, the empty sequence
+  add('h_melody', N=2, S=6, search=0, gap=1, pad=True, ignore_poly=True,
+      filter_drums=True, instrument=1, ins_hi=2, reuse=True, budget=600)
+  add('h_melody', N=2, S=7, search=0, gap=2, pad=False, ignore_poly=True,
+      filter_drums=True, ts=[2, 4], budget=600)
+  add('h_melody', N=2, S=5, search=0, gap=0, pad=False, ignore_poly=False,
+      filter_drums=False, budget=600)
+  add('h_melody', N=2, S=7, search=3, gap=1, pad=True, ignore_poly=False,
+      filter_drums=True, ts=[6, 8], budget=600)
+  add('h_melody', N=2, S=6, search=0, gap=1, pad=True, ignore_poly=True,
+      filter_drums=False, ts=[2, 4], spq=2, budget=600)
+  add('h_melody', N=2, S=6, search=0, gap=1, pad=False, ignore_poly=False,
+      filter_drums=True, call='defaults', budget=600)
+  add('h_melody', N=3, S=8, search=0, gap=1, pad=False, ignore_poly=True,
+      filter_drums=True, steps=_PATTERNS3_SHORT[3], instrument=2, ins_hi=2,
+      budget=600)
+  add('h_melody', N=0, S=4, search=0, gap=1, pad=True, ignore_poly=False,
+      filter_drums=True, reuse=True)
+  # constructors: wrong kind of quantization, too many velocity bins, both /
+  # neither of sequence and resolution, empty objects, pianoroll event lists
+  for case in ('wrong_kind', 'bins', 'one_of', 'empty', 'roll_events'):
+    add('h_ctor', case=case)
   if deep:
     for kind in ('absolute', 'metric'):
       for bins in (0, 8):
